@@ -761,7 +761,7 @@ func TestCheck(t *testing.T) {
 					}
 					// quick: the 16-fold repeated Fischlin proofs use the index alphabet {0,1,mid,last-1,last} on the
 					// repetition arrays and the leaf-level bit alphabet (every bit for plain Schnorr/k256)
-					cf.restrict, cf.light = idx5, true
+					cf.restrict, cf.light = idx5, os.Getenv("C08_NOLIGHT") == "" // C08_NOLIGHT: development aid, all context pairs in quick
 					if n.name != "schnorr/k256" {
 						cf.mode = bitsLeaf
 					}
@@ -788,7 +788,7 @@ func TestCheck(t *testing.T) {
 			if n.sigmaLevel == nil && c != fiatshamir.Name {
 				continue // pailliern is its own non-interactive proof
 			}
-			cf := cfg{n: n, c: c, light: true, chunk: max(4, min(96, 4000/u))}
+			cf := cfg{n: n, c: c, light: os.Getenv("C08_NOLIGHT") == "", chunk: max(4, min(96, 4000/u))}
 			switch {
 			case c != fiatshamir.Name:
 				// Fischlin-type compilers on Paillier-sized protocols: thorough only, and only where one Fiat-Shamir
